@@ -51,7 +51,31 @@ def directions(D: int, tier: str, seed: int):
     for t in tables:
         for k, M in enumerate(fr.generic_rotations(D, t, 6)):
             out.append(("rot", f"rot{t}.{k}", M))
+    # almost axis-aligned orientations: rotations of 0.02 / 0.04 degrees about a generic axis (table by seed),
+    # alone and composed with every signed permutation (judged on a large image: lever arm of ~500 voxels)
+    perms = fr.signed_permutations(D)
+    for k in range(-2, len(perms)):
+        deg = (0.02, 0.04)[k % 2]
+        T = tiny_rotation(D, deg, seed)
+        if k < 0:
+            out.append(("tiny", f"tiny{deg}", T))
+        else:
+            cls = "tinyperm+" if round(float(np.linalg.det(perms[k]))) == 1 else "tinyperm-"
+            out.append((cls, f"{cls}{k}x{deg}", perms[k] @ T))
     return out
+
+
+_TINY_AXES = ((1.0, 2.0, 3.0), (-2.0, 1.0, 0.5), (0.3, -1.0, 2.0), (3.0, 1.0, -1.0))
+
+
+def tiny_rotation(D: int, deg: float, seed: int) -> np.ndarray:
+    a = np.deg2rad(deg) * (1 if seed % 2 == 0 else -1)
+    if D == 2:
+        return np.array([[np.cos(a), -np.sin(a)], [np.sin(a), np.cos(a)]])
+    u = np.array(_TINY_AXES[seed % 4])
+    u = u / np.linalg.norm(u)
+    K = np.array([[0, -u[2], u[1]], [u[2], 0, -u[0]], [-u[1], u[0], 0]])
+    return np.eye(3) + np.sin(a) * K + (1 - np.cos(a)) * (K @ K)
 
 
 def geometry_menu(D: int, tier: str):
@@ -92,6 +116,10 @@ def index_lattice(size, tier: str) -> np.ndarray:
 def configs(D: int, di: int, tier: str, seed: int):
     cls, name, M = directions(D, tier, seed)[di]
     sizes, spacings, origins = geometry_menu(D, tier)
+    if cls.startswith("tiny"):
+        # one large image per almost-aligned orientation: indices up to 512 make an error of 3e-4 rad visible
+        sizes = [(512, 400)] if D == 2 else [(400, 512, 3)]
+        spacings, origins = spacings[1:2], origins[1:2]
     out = []
     for size in sizes:
         for s in spacings:
@@ -107,7 +135,8 @@ def bounds(tier):
         dirs = directions(D, tier, 0)
         b[f"D{D}"] = {
             "sizes": len(sizes), "spacings": len(spacings), "origins": len(origins),
-            "signed_permutations": sum(1 for d in dirs if d[0] != "rot"), "generic_rotations": sum(1 for d in dirs if d[0] == "rot"),
+            "signed_permutations": sum(1 for d in dirs if d[0].startswith("perm")), "generic_rotations": sum(1 for d in dirs if d[0] == "rot"),
+            "tiny_rotations_0.02_0.04deg_alone_and_with_each_signed_permutation_on_512_voxel_images": sum(1 for d in dirs if d[0].startswith("tiny")),
             "index_lattice_values_per_axis": len(index_values(5, tier)),
         }
     b["routes"] = list(SUBS)
